@@ -71,9 +71,11 @@ impl Matrix<f64> {
         let mut state = point.clone();
         let mut jac = Mat64::new( m, n, 0.0 );
         for i in 0..n {
+            // restore by assignment: ( x + delta ) - delta need not give x back in floating point
+            let saved = state[i];
             state[i] += delta;
             let f_new = func( state.clone() ); 
-            state[i] -= delta;
+            state[i] = saved;
             jac.set_col( i, ( f_new - f.clone() ) / delta );
         }
         jac
@@ -93,9 +95,11 @@ impl Matrix<Cmplx> {
         let mut state = point.clone();
         let mut jac = Matrix::<Cmplx>::new( m, n, Cmplx::new( 0.0, 0.0 ) );
         for i in 0..n {
+            // restore by assignment: ( x + delta ) - delta need not give x back in floating point
+            let saved = state[i];
             state[i] += Cmplx::new( delta, 0.0 );
             let f_new = func( state.clone() ); 
-            state[i] -= Cmplx::new( delta, 0.0 );
+            state[i] = saved;
             jac.set_col( i, ( f_new - f.clone() ) / Cmplx::new( delta, 0.0 ) );
         }
         jac
